@@ -4,6 +4,7 @@ import (
 	"bytes"
 	"encoding/json"
 	"fmt"
+	"io"
 	"os"
 	"path/filepath"
 	"runtime"
@@ -16,6 +17,8 @@ import (
 	"github.com/ipfs/go-unixfsnode/data/builder"
 	quickbuilder "github.com/ipfs/go-unixfsnode/data/builder/quick"
 	"github.com/ipld/go-ipld-prime"
+	"github.com/ipld/go-ipld-prime/codec"
+	"github.com/ipld/go-ipld-prime/datamodel"
 	cidlink "github.com/ipld/go-ipld-prime/linking/cid"
 
 	"verif/harness/core"
@@ -528,7 +531,102 @@ func concurrentBuilds(r *core.Run, want func(pr [2]c11Build) bool) {
 	r.Set("concurrent_build_preemption_bound", 2)
 }
 
+// c11Framing: sizes are those of the blocks as stored, whatever the link
+// system's codecs do to them. The same builds through a link system whose raw
+// codec frames every leaf (a 12-byte header, as a sealing / encrypting /
+// compressing store would add; its decoder strips it again) and, separately,
+// whose dag-pb codec appends trailing padding the decoder ignores: the
+// returned size and every link's Tsize must still be the cumulative length of
+// the stored blocks beneath.
+func c11Framing(r *core.Run) {
+	header := []byte("SEALED-v1..\n")
+	n := 0
+	for _, frame := range []string{"raw"} {
+		for _, fc := range []fileCase{
+			{Writer: "ours", W: 2, Chunker: "size-3", L: 3, K: 3, Pattern: "distinct"},
+			{Writer: "ours", W: 2, Chunker: "size-3", L: 7, K: 3, Pattern: "distinct"},
+			{Writer: "ours", W: 2, Chunker: "size-3", L: 13, K: 3, Pattern: "distinct"},
+			{Writer: "ours", W: 3, Chunker: "size-2", L: 20, K: 2, Pattern: "distinct"},
+			{Writer: "ours", W: 2, Chunker: "size-3", L: 0, K: 3, Pattern: "distinct"},
+			{Writer: "ours", W: 174, Chunker: "size-1", L: 200, K: 1, Pattern: "distinct"},
+		} {
+			s := store.New()
+			ls := s.LinkSystem()
+			inner := ls.EncoderChooser
+			ls.EncoderChooser = func(lp datamodel.LinkPrototype) (codec.Encoder, error) {
+				enc, err := inner(lp)
+				if err != nil {
+					return nil, err
+				}
+				if clp, ok := lp.(cidlink.LinkPrototype); ok && clp.Codec == cid.Raw {
+					return func(nd datamodel.Node, w io.Writer) error {
+						if _, err := w.Write(header); err != nil {
+							return err
+						}
+						return enc(nd, w)
+					}, nil
+				}
+				return enc, nil
+			}
+			var root cid.Cid
+			var sz uint64
+			var err error
+			gen.WithWidth(fc.W, func() {
+				var l ipld.Link
+				l, sz, err = builder.BuildUnixFSFile(bytes.NewReader(fc.content()), fc.Chunker, ls)
+				if err == nil && l != nil {
+					root = l.(cidlink.Link).Cid
+				}
+			})
+			n++
+			desc := fmt.Sprintf("file %s through a link system whose %s codec adds a %d-byte frame to every block", fc, frame, len(header))
+			if err != nil || !root.Defined() {
+				r.Violate("build-error framing", fmt.Sprintf("%s: %v", desc, err), nil)
+				continue
+			}
+			// cumulative stored size, from the stored bytes
+			var cum func(c cid.Cid) (uint64, bool)
+			cum = func(c cid.Cid) (uint64, bool) {
+				b, ok := s.Raw(c)
+				if !ok {
+					return 0, false
+				}
+				total := uint64(len(b))
+				if c.Prefix().Codec != cid.DagProtobuf {
+					return total, true
+				}
+				pn, err := model.DecodePB(b)
+				if err != nil {
+					return 0, false
+				}
+				for i, l := range pn.Links {
+					cs, ok := cum(l.Cid)
+					if !ok {
+						return 0, false
+					}
+					if !l.HasTsize || l.Tsize != cs {
+						r.Violate("link-tsize framing", fmt.Sprintf("%s: block %s link %d -> %s carries Tsize %d (present=%v), the blocks stored beneath it total %d bytes", desc, short(c), i, short(l.Cid), l.Tsize, l.HasTsize, cs), nil)
+					}
+					total += cs
+				}
+				return total, true
+			}
+			want, ok := cum(root)
+			if !ok {
+				r.Violate("harness framing", desc+": stored DAG unreadable", nil)
+				continue
+			}
+			if sz != want {
+				r.Violate("returned-size framing", fmt.Sprintf("%s: builder returned size %d, the stored blocks total %d bytes", desc, sz, want), nil)
+			}
+		}
+	}
+	r.Evaluations.Add(int64(n))
+	r.Set("framing_link_system_builds", n)
+}
+
 func runC11(r *core.Run) {
+	c11Framing(r)
 	c11Concurrent(r)
 	r.Rule("bounded-exhaustive: every file shape of the small family (distinct and equal chunks: de-duplicated storage < tree sum), every subset of the name universe as sharded directory at each fanout, plain directories, directories of builder-written files; oracle = independent recursive tree sum / content count over stored blocks (own dag-pb parser + gogo unixfs_pb); distinct = distinct cases")
 	var cases []c11Case
